@@ -551,9 +551,11 @@ func (l *lexer) subst() bool {
 				// avoid infinite loop
 				for _, a := range l.aliases {
 					if a.name == w.Value {
+						verifAlias(l, 5, 0, w.Value)
 						return false
 					}
 				}
+				verifAlias(l, 3, 0, w.Value)
 
 				r := strings.NewReader(strings.TrimRight(v, "\t ") + " ")
 				l.aliases = append(l.aliases, &alias{
@@ -1815,6 +1817,7 @@ func (l *lexer) read() (rune, error) {
 			if l.aliases[i].value.Len() > 0 {
 				r, _, err := l.aliases[i].value.ReadRune()
 				l.aliases = l.aliases[:i+1]
+				verifAlias(l, 1, r, "")
 				return r, err
 			}
 		}
@@ -1845,10 +1848,16 @@ func (l *lexer) read() (rune, error) {
 	default:
 		l.col++
 	}
+	if err != nil {
+		verifAlias(l, 4, r, "")
+	} else {
+		verifAlias(l, 1, r, "")
+	}
 	return r, err
 }
 
 func (l *lexer) unread() {
+	verifAlias(l, 2, 0, "")
 	if len(l.aliases) != 0 {
 		l.aliases[len(l.aliases)-1].value.UnreadRune()
 		return
